@@ -238,10 +238,13 @@ impl CraneliftCompiler {
         bcx.def_var(self.registers[2], mem_or_mbuf_len);
 
         // Insert the *actual* initial block
-        let program_entry = bcx.create_block();
+        // (build_cfg may already have created the block of instruction 0 as a jump target)
+        let program_entry = *self
+            .insn_blocks
+            .entry(0)
+            .or_insert_with(|| bcx.create_block());
         bcx.ins().jump(program_entry, &[]);
         self.filled_blocks.insert(bcx.current_block().unwrap());
-        self.insn_blocks.insert(0, program_entry);
 
         Ok(())
     }
